@@ -4,6 +4,7 @@
 set -e
 cd "$(dirname "$0")"
 export CARGO_NET_OFFLINE=true
+[ -e repo ] || ln -sfn /repo repo
 python3 gen_registry.py
 (cd lean && lake build PdfModel driver)
 (cd harness && cargo build --release --offline)
